@@ -244,11 +244,12 @@ impl DatabaseCheckpoint {
 			Self::copy_directory_sync(&sstables_source, &sstables_dest)?;
 		}
 
-		// Restore WAL segments
+		// Restore WAL segments. They are appended to: they must be copies, never links into
+		// the checkpoint (a checkpoint that has been opened as a database owns a segment).
 		let wal_source = checkpoint_path.join("wal");
 		let wal_dest = self.core.opts.wal_dir();
 		if wal_source.exists() {
-			Self::copy_directory_sync(&wal_source, &wal_dest)?;
+			copy_dir_all(&wal_source, &wal_dest).map_err(|e| Error::Io(Arc::new(e)))?;
 		}
 
 		// Restore level manifest directory
